@@ -7,9 +7,10 @@ wt, prop, k = sys.argv[1], sys.argv[2], sys.argv[3]
 src = os.path.join(wt, 'seed_out', k)
 readme = open(os.path.join(src, 'README.txt')).read()
 demo = open(os.path.join(src, 'demo.rs')).read()
-m = re.search(r'END of\s+(statime(?:-linux)?/(?:src|tests)/[A-Za-z0-9_/]+\.rs)', readme) or re.search(r'(statime(?:-linux)?/(?:src|tests)/[A-Za-z0-9_/]+\.rs)', readme)
+m = re.search(r'END of\s+(statime(?:-linux)?/(?:src|tests)/[A-Za-z0-9_/]+\.rs)', readme) or re.search(r'(statime(?:-linux)?/tests/[A-Za-z0-9_/]+\.rs)', readme) or re.search(r'(statime(?:-linux)?/(?:src|tests)/[A-Za-z0-9_/]+\.rs)', readme)
 target = m.group(1)
-mod = re.search(r'(?m)^\s*(?:pub )?mod\s+([A-Za-z0-9_]+)', demo).group(1)
+_m = re.search(r'(?m)^\s*(?:pub )?mod\s+([A-Za-z0-9_]+)', demo)
+mod = _m.group(1) if _m else 'integration'
 pkg = 'statime-linux' if target.startswith('statime-linux') else 'statime'
 env = dict(os.environ, CARGO_NET_OFFLINE='true')
 def sh(cmd, **kw):
@@ -18,6 +19,7 @@ def clean():
     sh('git checkout -- . ')
 def run_demo():
     if '/tests/' in target:
+        os.makedirs(os.path.dirname(os.path.join(wt, target)), exist_ok=True)
         open(os.path.join(wt, target), 'w').write(demo)
         r = sh(f'cargo test -p {pkg} --offline --test {os.path.basename(target)[:-3]} 2>&1')
     else:
